@@ -115,6 +115,13 @@ def time_input(name, seconds, carrier='dt64'):
         v = Vec.fresh(cells, kind='dtindex', dtype='M8', unit='ns', owner=name)
         v.tz = 'UTC'
         return v
+    if carrier in ('dtindex_s', 'dtindex_ms', 'series_s', 'series_us'):
+        # pandas >= 2 keeps non-nanosecond resolutions (e.g. an index built from datetime64[s] data)
+        unit = carrier.split('_')[1]
+        from .models import UNIT_SECONDS
+        if any((x / UNIT_SECONDS[unit]).denominator != 1 for x in secs):
+            raise ValueError('instants not representable in the carrier unit')
+        return Vec.fresh(cells, kind='dtindex' if carrier.startswith('dtindex') else 'series', dtype='M8', unit=unit, owner=name)
     if carrier == 'pydatetime':
         return [TS(s) for s in secs]
     raise ValueError(carrier)
@@ -153,8 +160,12 @@ class Runner:
             for var, val in ns.globals.items():
                 if isinstance(val, (list, dict, set)) and not var.startswith('__'):
                     it.owned[id(val)] = f'module-state:{mname}.{var}'
+        from .vec import Backing
+        start = Backing.counter
         try:
             v = it.call(fn, list(args), dict(kwargs or {}), None)
-            return Outcome('return', value=v, events=it.events, interp=it)
+            out = Outcome('return', value=v, events=it.events, interp=it)
+            out.start_serial = start
+            return out
         except AbsRaise as r:
             return Outcome('raise', exc=r.exc, events=it.events, node=r.node, interp=it)
